@@ -1,6 +1,7 @@
 (* C13 - property theorems only.  Each is closed by [exact] of a lemma of the
    Proofs files and followed by Print Assumptions. *)
-From VF.C13 Require Import Model Proofs Proofs2 Proofs3 Proofs5 Proofs6 Proofs7 Proofs8 Proofs9.
+From VF.C13 Require Import Model Proofs Proofs2 Proofs3 Proofs5 Proofs6 Proofs7 Proofs8 Proofs9 Proofs10 Proofs11 Proofs12.
+From VF.C13 Require Import Proofs4.
 From Coq Require Import Sorted.
 From VF.Lib Require Import Keccak.
 Local Open Scope N_scope.
@@ -130,6 +131,88 @@ Theorem C13_gc_safe_partial :
 Proof. exact gc_safe_fragment. Qed.
 Print Assumptions C13_gc_safe_partial.
 
+(* Garbage collection, full schedule alphabet.  Assumptions (the section
+   variables of Proofs10): the content named by a hash determines its children
+   ([kidsof]; no hash collisions) and children have smaller [rank] (content is
+   a DAG); explicit references go from a cached parent to a child of smaller
+   rank (no reference cycles, on which the Go code itself does not terminate).
+   Steps: Database.insert of a node whose children are cached or on disk (what
+   Trie.Commit does, children first), Reference to the meta root or to a cached
+   parent, Dereference of a root the meta root references, Cap with any limit,
+   Commit of any root.  Then, after ANY schedule: every root that the meta root
+   still references, or that is on disk, has everything reachable from it -
+   through the children its content names and through the explicit children of
+   cached nodes - in the cache or on disk.  Dereferencing, capping or
+   committing other roots loses nothing.  Not covered: uint16 overflow of the
+   parent counter; explicit children of nodes that exist only on disk (the
+   disk stores blobs only); that Trie.Commit issues exactly such inserts is
+   checked by correspondence. *)
+Theorem C13_gc_safe :
+  forall (kidsof : bytes -> list bytes) (rank : bytes -> nat),
+  (forall h k, In k (kidsof h) -> (rank k < rank h)%nat) ->
+  forall s, full_reach kidsof rank s ->
+  forall root, 0 < ext_get (db_meta s) root \/ In root (db_disk s) ->
+  forall y, reachF kidsof s root y -> avail s y.
+Proof. exact gc_safe_full. Qed.
+Print Assumptions C13_gc_safe.
+
+(* SecureTrie.  The secure trie after a history IS the plain trie after the
+   history with hashed keys (so canonical form, history independence, proofs,
+   iteration and commit/reopen transfer verbatim); and as long as the key hash
+   (bytes out) does not send a key of the history and the queried key to the
+   same hash, lookups follow the reference map over the ORIGINAL keys. *)
+Theorem C13_secure_trie :
+  forall (H : bytes -> bytes) ops,
+  s_run H ops = run (map (hash_op H) ops) /\
+  ((forall x, bytes_ok (H x)) ->
+   canon_root (s_run H ops) /\
+   forall k, (forall o, In o ops -> H (op_key o) = H k -> op_key o = k) ->
+             s_get H (s_run H ops) k = m_run ops k).
+Proof.
+  exact (fun H ops => conj (s_run_plain H ops)
+           (fun Hb => conj (secure_canonical H ops Hb) (fun k Hinj => secure_refines H ops k Hb Hinj))).
+Qed.
+Print Assumptions C13_secure_trie.
+
+(* DeriveSha.  For a list of fewer than 2^64 items: DeriveSha is the root of the
+   trie reached by the history "update rlp(i) with item i" (a well-formed
+   history, so all plain-trie theorems apply); that trie holds item j under
+   rlp(j) - nothing if the item is empty, as Trie.Update deletes then - and
+   nothing under any other key. *)
+Theorem C13_derive_sha :
+  forall (H : bytes -> bytes) items, N.of_nat (length items) <= two64 ->
+  derive_sha H items = root_hash H (run (derive_ops 0 items)) /\
+  Forall op_ok (derive_ops 0 items) /\
+  (forall j, j < N.of_nat (length items) ->
+     t_get (run (derive_ops 0 items)) (rlp_uint j) =
+     match nth (N.to_nat j) items [] with [] => None | v => Some v end) /\
+  (forall k, bytes_ok k -> (forall j, j < N.of_nat (length items) -> k <> rlp_uint j) ->
+     t_get (run (derive_ops 0 items)) k = None).
+Proof. exact derive_sha_spec. Qed.
+Print Assumptions C13_derive_sha.
+
+(* Lazy loading.  Commit a canonical trie, open it the way trie.New does (only
+   the root node is decoded, everything below stays a hash node) and run ANY
+   history on it with the lazy operations (hash nodes are resolved from the
+   node store when an operation reaches them; delete resolves the remaining
+   child of a collapsing branch): no node is ever missing, and the root hash
+   and every lookup afterwards are those of the same history run on the fully
+   loaded trie - hence, by the theorems above, those of the reference map.
+   The fuel only has to exceed twice the height of the tries passed through;
+   stored blobs must not collide under H. *)
+Theorem C13_lazy_reopen :
+  forall (H : bytes -> bytes), (forall x, length (H x) = 32%nat) ->
+  forall t ops f, canon t -> small t -> Forall op_ok ops ->
+  (forall h b1 b2, In (h, b1) (commit H t) -> In (h, b2) (commit H t) -> b1 = b2) ->
+  root_hash H t <> empty_root ->
+  (forall i, (2 * height (fold_left apply_op (firstn i ops) t) + 2 <= f)%nat) ->
+  exists lt0 lt', l_open (commit H t) (root_hash H t) = Some lt0 /\
+    l_run f (commit H t) ops lt0 = Some lt' /\
+    root_hash H lt' = root_hash H (fold_left apply_op ops t) /\
+    forall k, l_get f (commit H t) lt' k = Some (t_get (fold_left apply_op ops t) k).
+Proof. exact lazy_reopen. Qed.
+Print Assumptions C13_lazy_reopen.
+
 (* ---- non-vacuity ---------------------------------------------------------- *)
 
 Definition ex_ops1 : list kvop :=
@@ -215,3 +298,61 @@ Proof.
   split; [exact (frag_run_sound _ _ _ fr_empty ex_run)|]. vm_compute. repeat split; reflexivity.
 Qed.
 Print Assumptions C13_nonvacuous_gc.
+
+(* the full alphabet is inhabited: two tries sharing a leaf, an explicit
+   reference between their roots, Cap, Dereference and Commit; the committed
+   root is on disk and all its nodes are still available *)
+Definition ex_tbl : list (bytes * bytes) := commit keccak256 ex_t1 ++ commit keccak256 ex_t2.
+Definition ex_xops : list xop :=
+  map (fun p => XInsert (fst p) (snd p)) (commit keccak256 ex_t1) ++ [XRefMeta (root_hash keccak256 ex_t1)] ++
+  map (fun p => XInsert (fst p) (snd p)) (commit keccak256 ex_t2) ++ [XRefMeta (root_hash keccak256 ex_t2)] ++
+  [XRefNode (root_hash keccak256 ex_t1) (root_hash keccak256 ex_t2); XCap 150;
+   XDeref (root_hash keccak256 ex_t1); XCommit (root_hash keccak256 ex_t2); XCap 0].
+Definition ex_state2 : dbstate :=
+  Eval vm_compute in (match full_run ex_tbl ex_xops db_empty with Some s => s | None => db_empty end).
+
+Lemma ex_run2 : tbl_ok ex_tbl = true /\ full_run ex_tbl ex_xops db_empty = Some ex_state2.
+Proof. vm_compute. split; reflexivity. Qed.
+
+Example C13_nonvacuous_gc_full :
+  (forall h k, In k (kidsof_tbl ex_tbl h) -> (rank_tbl ex_tbl k < rank_tbl ex_tbl h)%nat) /\
+  full_reach (kidsof_tbl ex_tbl) (rank_tbl ex_tbl) ex_state2 /\
+  (existsb (list_eqb (root_hash keccak256 ex_t2)) (db_disk ex_state2) = true /\
+   ext_get (db_meta ex_state2) (root_hash keccak256 ex_t2) = 1 /\
+   forallb (fun p => availb ex_state2 (fst p)) (commit keccak256 ex_t2) = true /\
+   length (db_disk ex_state2) = 5%nat).
+Proof.
+  split; [exact (tbl_ok_rank ex_tbl (proj1 ex_run2))|].
+  split; [exact (full_run_sound ex_tbl _ _ _ (fur_empty _ _) (proj2 ex_run2))|].
+  vm_compute. repeat split; reflexivity.
+Qed.
+Print Assumptions C13_nonvacuous_gc_full.
+
+(* lazy loading is exercised for real: after commit + lazy open the trie has
+   hash nodes; a delete that collapses a branch onto an unloaded child and an
+   insert give the same root as on the loaded trie *)
+Definition ex_t3 : node :=
+  run [KUpdate [17;17;17] (repeat 65 40); KUpdate [17;17;34] (repeat 66 40); KUpdate [17;51;51] (repeat 67 40); KUpdate [34] (repeat 68 40)].
+Definition ex_lops : list kvop := [KDelete [34]; KDelete [17;51;51]; KUpdate [85] [1;2;3]].
+Fixpoint has_hashn (n : node) : bool :=
+  match n with
+  | HashN _ => true
+  | Short _ c => has_hashn c
+  | Full cs => existsb has_hashn cs
+  | _ => false
+  end.
+
+Example C13_nonvacuous_lazy :
+  canonb ex_t3 = true /\
+  match l_open (commit keccak256 ex_t3) (root_hash keccak256 ex_t3) with
+  | Some lt0 =>
+    has_hashn lt0 = true /\
+    match l_run 40 (commit keccak256 ex_t3) ex_lops lt0 with
+    | Some lt' => has_hashn lt' = true /\
+                  root_hash keccak256 lt' = root_hash keccak256 (fold_left apply_op ex_lops ex_t3)
+    | None => False
+    end
+  | None => False
+  end.
+Proof. vm_compute. repeat split; reflexivity. Qed.
+Print Assumptions C13_nonvacuous_lazy.
